@@ -121,6 +121,51 @@ pub fn run_case(case: &mut Case) {
                     .set("observed", o_base.show()),
             );
         }
+        // the help and the version flag are named flags of the level as well: which of the two
+        // is written first does not matter
+        if b.spec.version.is_some() {
+            let first_cmd = bline
+                .origin
+                .iter()
+                .position(|o| matches!(o.role, Role::CmdName | Role::DashDash))
+                .unwrap_or(bline.argv.len());
+            let i = rng.below(first_cmd + 1);
+            let j = rng.range(i, first_cmd);
+            let spell = |n: &Names, rng: &mut crate::rng::Rng| -> Vec<u8> {
+                let k = rng.below(n.shorts.len() + n.longs.len());
+                if k < n.shorts.len() {
+                    format!("-{}", n.shorts[k]).into_bytes()
+                } else {
+                    format!("--{}", n.longs[k - n.shorts.len()]).into_bytes()
+                }
+            };
+            let h = spell(&b.spec.help_names(), &mut rng);
+            let v = spell(&b.spec.version_names(), &mut rng);
+            // an item dropped between an argument name and its value changes the line itself
+            let splits_arg = |at: usize| at > 0 && bline.origin[at - 1].role == Role::ArgName;
+            if !splits_arg(i) && !splits_arg(j) {
+                let mut a = bline.argv.clone();
+                a.insert(i, h.clone());
+                a.insert(j + 1, v.clone());
+                let mut bb = bline.argv.clone();
+                bb.insert(i, v);
+                bb.insert(j + 1, h);
+                let (oa, _) = b.run(case, &a, "help-then-version");
+                let (ob, _) = b.run(case, &bb, "version-then-help");
+                case.rep.count("help-version-pairs");
+                if !same(&oa, &ob) {
+                    case.rep.violation(
+                        &format!("help-version-order:{}->{}", oa.class(), ob.class()),
+                        "permutation",
+                        case.index,
+                        case_json(&b.spec, &bb)
+                            .set("other_order_argv", show_argv(&a))
+                            .set("other_order_outcome", oa.show())
+                            .set("this_order_outcome", ob.show()),
+                    );
+                }
+            }
+        }
         for pi in 0..n_perm {
             let perm = match order_units(&atoms, &mut rng, OrderStyle::Random, DashDash::IfNeeded)
             {
